@@ -148,7 +148,11 @@ func c20Body(role string, variant string) func() {
 		// any timer has fired: the retransmission works on the stored message objects while nothing but
 		// the library's own locks orders it after the application's sends
 		in("2", "7=1", "16=0")
-		time.Sleep(1750 * time.Millisecond) // both timers expire: Heartbeats and the TestRequest
+		time.Sleep(1250 * time.Millisecond) // the heartbeat timer expires (1.75 s)
+		// ... and everything is asked for once more while the newest stored message is one the heartbeat
+		// task sent: the retransmission reads the timer task's message objects, and the task goes on
+		in("2", "7=1", "16=0")
+		time.Sleep(500 * time.Millisecond) // (the test-request timer expires as well)
 		in("0", "112=1")                    // the answer to the session's TestRequest
 		in("D", "11=x")
 		for i := 0; i < 4; i++ {
